@@ -4,7 +4,7 @@
 use crate::prng::Rng;
 use crate::scen::Report;
 use crate::world::{World, WorldCfg, gen_world};
-use crate::{c04, c10, c12, c16};
+use crate::{c04, c10, c12, c16, c17};
 use biodivine_lib_param_bn::BooleanNetwork;
 use biodivine_lib_param_bn::symbolic_async_graph::SymbolicAsyncGraph;
 use serde_json::{Value, json};
@@ -16,6 +16,7 @@ pub enum Scenario {
     C10(c10::C10),
     C12(c12::C12),
     C16(c16::C16),
+    C17(c17::C17),
 }
 
 #[derive(Clone, Debug, PartialEq)]
@@ -32,8 +33,9 @@ impl Case {
             Scenario::C10(s) => s.to_json(),
             Scenario::C12(s) => s.to_json(),
             Scenario::C16(s) => s.to_json(),
+            Scenario::C17(s) => s.to_json(),
         };
-        json!({"property": self.property, "engine": "session", "world": self.world.to_json(), "scenario": sc})
+        json!({"property": self.property, "engine": if self.property == "C17" { "cli" } else { "session" }, "world": self.world.to_json(), "scenario": sc})
     }
 
     pub fn from_json(v: &Value) -> Result<Case, String> {
@@ -44,6 +46,7 @@ impl Case {
             "C10" => Scenario::C10(c10::C10::from_json(&v["scenario"])?),
             "C12" => Scenario::C12(c12::C12::from_json(&v["scenario"])?),
             "C16" => Scenario::C16(c16::C16::from_json(&v["scenario"])?),
+            "C17" => Scenario::C17(c17::C17::from_json(&v["scenario"])?),
             p => return Err(format!("unknown property {p}")),
         };
         Ok(Case { property, world, scenario })
@@ -55,6 +58,7 @@ impl Case {
         let mut wr = rng.fork("world.cfg");
         let cfg = match property {
             "C16" => WorldCfg { min_k: wr.below(3) as u16, max_extra_k: 1, max_ctx: 2 },
+            "C17" => WorldCfg { min_k: 0, max_extra_k: 0, max_ctx: 0 },
             _ => WorldCfg { min_k: wr.range(1, 3) as u16, max_extra_k: 1, max_ctx: 4 },
         };
         let (world, _) = gen_world(&rng, &cfg);
@@ -63,6 +67,7 @@ impl Case {
             "C10" => Scenario::C10(c10::generate(&rng, &world)),
             "C12" => Scenario::C12(c12::generate(&rng, &world)),
             "C16" => Scenario::C16(c16::generate(&rng, &world, tier)),
+            "C17" => Scenario::C17(c17::generate(&rng, &world, tier)),
             p => panic!("unknown property {p}"),
         };
         Case { property: property.to_string(), world, scenario }
@@ -74,6 +79,7 @@ impl Case {
             Scenario::C10(s) => c10::check(&self.world, s, sandbox),
             Scenario::C12(s) => c12::check(&self.world, s),
             Scenario::C16(s) => c16::check(&self.world, s, sandbox),
+            Scenario::C17(s) => c17::check(&self.world, s, sandbox),
         }
     }
 
@@ -84,9 +90,13 @@ impl Case {
             Scenario::C10(s) => c10::shrinks(s).into_iter().map(Scenario::C10).collect(),
             Scenario::C12(s) => c12::shrinks(s).into_iter().map(Scenario::C12).collect(),
             Scenario::C16(s) => c16::shrinks(s).into_iter().map(Scenario::C16).collect(),
+            Scenario::C17(s) => c17::shrinks(s).into_iter().map(Scenario::C17).collect(),
         };
         for sc in scs {
             out.push(Case { property: self.property.clone(), world: self.world.clone(), scenario: sc });
+        }
+        if self.property == "C17" {
+            return out;
         }
         // world: simpler context sets (empty / unit)
         if let Ok(bn) = BooleanNetwork::try_from(self.world.model.as_str()) {
